@@ -192,7 +192,8 @@ def run(
             r.error = f"TLC timed out after {timeout}s"
         elif not (r.invariant_violated or r.deadlock):
             i = out.find("Error:")
-            r.error = "TLC failed:\n" + (out[i:i + 4000] if i >= 0 else out[-4000:])
+            j = max(out.find("***Parse Error"), out.find("Semantic errors"), out.find("*** Errors"))
+            r.error = f"TLC failed [{tag}]:\n" + (out[j:j + 1500] + "\n" if j >= 0 else "") + (out[i:i + 4000] if i >= 0 else out[-4000:])
     return r
 
 
